@@ -174,6 +174,23 @@ pub fn accounting_projection(c: &SrtlaConnection) -> String {
     )
 }
 
+/// The timed-out / schedulable verdicts of a link must be the same with and without its
+/// guard-private state (latch, pull, gate, proof stamp).
+pub fn liveness_depends_on_guard(c: &SrtlaConnection, now: u64) -> Option<String> {
+    let mut clean = c.clone();
+    clean.verif_clear_stall_history();
+    let (t0, t1) = (clean.is_timed_out(now), c.is_timed_out(now));
+    let (s0, s1) = (clean.is_schedulable(), c.is_schedulable());
+    (t0 != t1 || s0 != s1).then(|| {
+        format!(
+            "timed-out verdict {t1} / schedulable {s1} with its stall state {:?}, {t0} / {s0} without (silent {:?} ms, timeout {} ms)",
+            c.verif_private(),
+            c.last_received.map(|t| now.saturating_sub(t)),
+            c.verif_private().conn_timeout_ms
+        )
+    })
+}
+
 #[derive(Default)]
 pub struct C12;
 
@@ -182,6 +199,14 @@ impl KMonitor for C12 {
         for s in &ctx.eff.selects {
             out.stats.inc("c12.decisions");
             for (i, (a, b)) in s.pre.iter().zip(s.post.iter()).enumerate() {
+                // the liveness verdict derived from that state is part of it: a decision (a latch
+                // it engages) must not make a link time out, or revive it
+                // (judged on the post-decision link against itself with the guard-private state
+                // erased, so that the timeout value the decision refreshes is the same on both sides)
+                if let Some(msg) = liveness_depends_on_guard(b, s.now) {
+                    out.violate("C12.state_touched", "liveness_verdict", ctx.idx, format!("link {i}: {msg}"));
+                }
+                let _ = a;
                 if accounting_projection(a) != accounting_projection(b) {
                     out.violate(
                         "C12.state_touched",
